@@ -334,11 +334,10 @@ theorem error_before_modify_bisync (cfg : Cfg) (st : RState) (t : Target) (e0 : 
 /-- **replace** (bidirectional): RESTORE … REPLACE, or DEL + native commands in
     the first unit and native commands in the later units — the target ends
     with exactly the snapshot's value and expiry, whatever it held before.
-    (`hb`: the target can load the payload. A "Bad data format" reply inside the
-    unit's EXEC makes the bidirectional replay FAIL with an error — nothing is
-    merged — which is outside this model.) -/
+    (`hb`: if the RESTORE path is taken, the target can load the payload; the
+    other case is `bad_data_bisync_fails`.) -/
 theorem replace_final_bisync (cfg : Cfg) (st : RState) (t : Target) (e0 : Entry) (rest : List Entry)
-    (g : Group e0 rest) (v : Value e0 rest) (hb : t.bad e0.key = false) :
+    (g : Group e0 rest) (v : Value e0 rest) (hb : useRestore cfg e0 = true → t.bad e0.key = false) :
     (runBisync .replace cfg st t (e0 :: rest)).out = .ok ∧
     (runBisync .replace cfg st t (e0 :: rest)).tgt.get e0.key = some (snapshotObj cfg t e0 rest) ∧
     (∀ d k, ¬ (d = t.cur ∧ k = e0.key) → (runBisync .replace cfg st t (e0 :: rest)).tgt.ks d k = t.ks d k) ∧
@@ -348,6 +347,7 @@ theorem replace_final_bisync (cfg : Cfg) (st : RState) (t : Target) (e0 : Entry)
   by_cases hu : useRestore cfg e0 = true
   · have hr : rest = [] := rest_nil_of_restore g hu
     subst hr
+    have hb := hb hu
     let r1 := Req.restore e0.key (ttlMs cfg.now e0.expireAt) e0.dump (restoreOpts cfg e0) true
     have h : buildUnit .replace cfg st (viewOf t e0) e0 = ([], [r1], .unit, none) := by
       simp [buildUnit, g.data, g.first, hu, r1, viewOf, hb]
@@ -465,7 +465,8 @@ theorem absent_final (pol : Policy) (cfg : Cfg) (st : RState) (t : Target) (e0 :
     exactly the snapshot's value and expiry (EXISTS probe under ignore/error,
     then RESTORE [REPLACE only under replace] or [DEL +] native commands) -/
 theorem absent_final_bisync (pol : Policy) (cfg : Cfg) (st : RState) (t : Target) (e0 : Entry) (rest : List Entry)
-    (g : Group e0 rest) (v : Value e0 rest) (hb : t.bad e0.key = false) (hex : t.get e0.key = none) :
+    (g : Group e0 rest) (v : Value e0 rest) (hb : useRestore cfg e0 = true → t.bad e0.key = false)
+    (hex : t.get e0.key = none) :
     (runBisync pol cfg st t (e0 :: rest)).out = .ok ∧
     (runBisync pol cfg st t (e0 :: rest)).tgt.get e0.key = some (snapshotObj cfg t e0 rest) ∧
     (∀ d k, ¬ (d = t.cur ∧ k = e0.key) → (runBisync pol cfg st t (e0 :: rest)).tgt.ks d k = t.ks d k) := by
@@ -479,6 +480,7 @@ theorem absent_final_bisync (pol : Policy) (cfg : Cfg) (st : RState) (t : Target
   by_cases hu : useRestore cfg e0 = true
   · have hr : rest = [] := rest_nil_of_restore g hu
     subst hr
+    have hb := hb hu
     let r1 := Req.restore e0.key (ttlMs cfg.now e0.expireAt) e0.dump (restoreOpts cfg e0) (pol = .replace)
     have h : buildUnit pol cfg st (viewOf t e0) e0 = (direct, [r1], .unit, none) := by
       rw [view_none hex]; cases pol <;> simp [buildUnit, g.data, g.first, hu, r1, direct, hb]
